@@ -839,7 +839,7 @@ def _bounds(k, n):
     # numpy semantics: an integer index outside [0, n) raises IndexError
     ok = (SV.lift(k) >= 0) & (SV.lift(k) < SV.lift(n))
     if not _py_bool(ok):
-        raise IndexError("index out of bounds for axis")
+        raise IndexError("index out of bounds for axis (index %s, extent %s)" % (getattr(k, "t", k), getattr(n, "t", n)))
 
 
 def _same_extent(a, b):
@@ -986,8 +986,10 @@ def _rowmap(mask):
         return n, sel_id
     # the selection is a function of the mask's contents: COUNT(contents, n), SEL(contents, n, r)
     jm = z3.Int("j!mask")
-    body = z3.simplify(core.bterm(_to_bool(me(_unflatten((SV(jm, "i"),), sh) if _py_len(sh) > 1 else (SV(jm, "i"),)))))
-    lam = z3.Lambda([jm], body)  # canonical (simplified) form: the same contents give the same term
+    # the body is NOT simplified: the simplifier's normal form depends on term creation order, the raw term built
+    # by the same code from the same contents is the same term (core.simp keeps lambdas untouched later on)
+    body = core.bterm(_to_bool(me(_unflatten((SV(jm, "i"),), sh) if _py_len(sh) > 1 else (SV(jm, "i"),))))
+    lam = z3.Lambda([jm], body)
     fs = _SELFN.get("f")
     if fs is None:
         fs = _SELFN["f"] = (z3.Function("np_count", lam.sort(), z3.IntSort(), z3.IntSort()),
